@@ -116,6 +116,10 @@ def ob_execute(which, variant):
                                (z3.And(ev[3][0][1] == owner.id, ev[3][1][1] == sender.id), 'the allowance used is the one the owner granted to the spender', '%s:%s:pair' % (which, variant))]
                 for key, v0, v1 in al:
                     cl.append((v1 == v0 - amt, 'allowance is reduced by the amount', '%s:%s:deduct' % (which, variant)))
+                # a spend leaves the expiry of what remains as the owner granted it (otherwise the rest outlives its expiry)
+                for ev in st.log:
+                    if ev[0] == 'write' and ev[2] == ('M', b'allowance') and ev[4] is not None and ev[5] is not None and hasattr(ev[5], 'val') and ev[5].val is not None:
+                        cl.append((S.struct_eq(st, ev[5].val.fields[1], ev[4].val.fields[1]), 'the remaining allowance keeps the expiry the owner granted', '%s:%s:expiry_kept' % (which, variant)))
                 cl.append((found, 'an allowance entry is consulted', '%s:%s:consulted' % (which, variant)))
             msgs = W.messages(st, res)
             if (which == 'stsei' and variant in ('Burn', 'BurnFrom')) or (which == 'bsei' and variant == 'BurnFrom'):
@@ -196,7 +200,7 @@ def ORACLE(v, scn, out):
                   (sm['msg']['wasm']['execute']['msg'] == {'check_slashing': {}}) for sm in res['ok']['messages'])
         if not has:
             bad.append('no CheckSlashing message to the hub')
-    elif what in ('granted', 'limit', 'expired', 'deduct', 'pair', 'consulted'):
+    elif what in ('granted', 'limit', 'expired', 'deduct', 'pair', 'consulted', 'expiry_kept'):
         alp = rawstore.lp(b'allowance')
         body = list(scn['msg'].values())[0]
         enc = (lambda a: rawstore.canonical(a)) if which == 'bsei' else (lambda a: a.encode())
@@ -216,6 +220,8 @@ def ORACLE(v, scn, out):
             a1 = post.get(k)
             if a1 is not None and int(a1['allowance']) != int(a0['allowance']) - amt:
                 bad.append('allowance not reduced by the amount')
+            if what == 'expiry_kept' and a1 is not None and a1.get('expires') != a0.get('expires'):
+                bad.append('expiry of the remaining allowance changed from %r to %r' % (a0.get('expires'), a1.get('expires')))
     elif what == 'own':
         for k in set(b0) | set(b1):
             if b0.get(k, 0) != b1.get(k, 0) and k != (rawstore.canonical(scn['info']['sender']) if which == 'bsei' else scn['info']['sender'].encode()):
